@@ -49,8 +49,8 @@ CHECKS = [
          note='hyphen splitting is covered by the oracle only; overlap-filter treatment of pseudo matches is a known finding.',
          technique=T_CORR),
     dict(id='C07',
-         text='Model stream (whole-pipeline model vs Match on planted/edited inputs) and metamorphic oracle Match(X) vs Match(P+X+S); the exact-copy case is covered by the C01 theorems (range bounds independent of A, B). Stage theorems for arbitrary X: hash join and hit bitmap shift (Shift.v), the density window refines its counting specification and its test is position independent in the interior and at the trailing edge (WindowSpec.v), fusion and the claimed-token cut commute with the shift for non-negative diagonals given that the runs shift (FuseShift.v). No end-to-end shift theorem is claimed: partial.',
-         note='partial: proved for arbitrary X: hash join, hit bitmap, window test at every index from the start of X on, fusion and cut under non-negative diagonals and shifted runs; proved for exact copies up to the proposed range. Position dependent by construction and therefore searched (metamorphic oracle, boundary-density and threshold-window inputs) and tied at stage level (getMatchedRanges vs model), not proved: the leading window edge (a run may start up to L-1 tokens early, witness in WindowSpec.v), the negative-offset clamp (witness in FuseShift.v), the short-target trim and the overlap resolution of match.',
+         text='Model stream (whole-pipeline model vs Match on planted/edited inputs) and metamorphic oracle Match(X) vs Match(P+X+S); the exact-copy case is covered by the C01 theorems (range bounds independent of A, B). Stage theorems for arbitrary X: hash join and hit bitmap shift (Shift.v), the density window refines its counting specification and its test is position independent in the interior and at the trailing edge (WindowSpec.v), fusion and the claimed-token cut commute with the shift for non-negative diagonals (FuseShift.v); composed in WindowShift.v: findPotentialMatches of prefix+X+suffix is that of X shifted, for arbitrary X with |X| >= |document|, positive window target, no negative diagonal, out-of-vocabulary blocks. The overlap resolution of match is not covered by a shift theorem: partial.',
+         note='partial: the whole searchset stage is proved position independent for arbitrary X under |X| >= |document|, positive window target, no matched range on a negative diagonal, no checksum collision with the surrounding text; proved for exact copies up to the proposed range. Searched (metamorphic oracle, boundary-density and threshold-window inputs) and tied at stage level (getMatchedRanges vs model), not proved: X shorter than the document (short-target trim), negative diagonals (the clamp is position dependent, witness in FuseShift.v), and the line-based overlap resolution of match.',
          technique=T_CORR),
     dict(id='C10',
          text='Coq theorems: match_tokens never reaches an out-of-range site for any threshold/corpus/input given a valid diff oracle (MatchWF.v + ScoringProof.v offsets), searchset ranges in bounds, read loop total on every byte string (ReaderProof.v), all recursion structural or on fuel proved sufficient. Oracle: hostile bytes x corpora x thresholds with recover and time budget.',
